@@ -1,5 +1,6 @@
 import PbVerif.Model.Proto
 import PbVerif.Model.Backend
+import PbVerif.Model.BandMul
 namespace PbVerif.Drv.C10
 open PbVerif PbVerif.Proto PbVerif.Backend PbVerif.Banded PbVerif.Whittaker
 
@@ -20,6 +21,10 @@ def handle : List String → Option String
       let n ← n.toNat?
       let ab ← (ab.splitOn ";").mapM (parseList? parseRat?)
       some (";".intercalate ((List.range n).map fun (i : Nat) => showRats ((List.range n).map fun (j : Nat) => denRowwise ab u i j)))
+  | ["c10.bandmul", al, au, bl, bu, n, a, b] => do
+      let pm := fun (t : String) => (t.splitOn ";").mapM (parseList? parseRat?)
+      let c := BandMul.bandedDotBanded (← pm a) (← pm b) (← al.toNat?) (← au.toNat?) (← bl.toNat?) (← bu.toNat?) (← n.toNat?)
+      some (";".intercalate (c.map showRats))
   | _ => none
 
 end PbVerif.Drv.C10
